@@ -3,6 +3,7 @@
  * Each kernel is CORRECT OpenMP (except the two marked RACY): the monitor must stay silent, the result must be exact for
  * every seed / team size; the racy ones must be reported. */
 #include <omp.h>
+#include <pthread.h>
 #include <stdint.h>
 #include <string.h>
 
@@ -122,4 +123,41 @@ long k_racy_nowait(void) { /* RACY: the second loop reads what the first writes,
     for (int i = 0; i < 64; i++) s += st_a[63 - i];
   }
   return s;
+}
+
+/* thread-local scratch: correct, must not be reported (each simulated thread has its own copy of the TLS block) */
+static __thread long tl_scratch[8];
+static long tp_counter;
+#pragma omp threadprivate(tp_counter)
+long st_tlsum;
+long k_tls(void) {
+  st_tlsum = 0;
+#pragma omp parallel
+  {
+    int t = omp_get_thread_num();
+    for (int i = 0; i < 8; i++) tl_scratch[i] = 0;   /* a fresh thread sees the initial image; the master keeps its own */
+    tp_counter = 0;
+    for (int r = 0; r < 20; r++) { for (int i = 0; i < 8; i++) tl_scratch[i] += t + 1; tp_counter += 1; }
+    long s = 0;
+    for (int i = 0; i < 8; i++) s += tl_scratch[i];
+    if (s != 160L * (t + 1) || tp_counter != 20) s = -1000000;
+#pragma omp atomic
+    st_tlsum += s;
+  }
+  return st_tlsum; /* 160 * n(n+1)/2 */
+}
+/* pthread mutex and once: correct, must not be reported */
+static pthread_mutex_t st_mtx = PTHREAD_MUTEX_INITIALIZER;
+static pthread_once_t st_once = PTHREAD_ONCE_INIT;
+static long st_once_runs, st_mtxcnt, st_table[16];
+static void st_once_fn(void) { st_once_runs++; for (int i = 0; i < 16; i++) st_table[i] = 7 * i; }
+long k_pthread(void) {
+  st_mtxcnt = 0;
+#pragma omp parallel
+  {
+    pthread_once(&st_once, st_once_fn);
+    long v = st_table[5]; /* read after once: ordered */
+    for (int i = 0; i < 4; i++) { pthread_mutex_lock(&st_mtx); st_mtxcnt += v; pthread_mutex_unlock(&st_mtx); }
+  }
+  return st_mtxcnt * 10 + st_once_runs; /* 35*4*n*10 + 1 */
 }
